@@ -521,6 +521,7 @@ func cellCodeCheck(e *Engine, fnName string, ncorner int, edgeTab []int, pairTab
 	x.paths = 0
 	x.unrolled = 0
 	x.mergeIf = false
+	x.prune = false
 	x.mergeCallMax = 0
 	x.safety = false
 	x.maxPaths = 60000
